@@ -606,6 +606,7 @@ def run(ctx):
     ]
     float_path_oracle(ctx)
     general_pad_oracle(ctx)
+    reused_object_oracle(ctx)
     passthrough_oracle(ctx)
     return C.finish(ctx, "proof")
 
@@ -642,6 +643,60 @@ def float_path_oracle(ctx):
                      dict(pad_mode=mode, pad_kwargs=kw, dtype=str(np.dtype(dt)), x=x.tolist(), num_deltas=nd, context_window=cw,
                           got=got.tolist(), expected=ref.tolist()), kind="impl")
             break
+
+
+def reused_object_oracle(ctx):
+    """One post-processor object serves many calls (a pipeline applies it to every utterance): what it returns must not
+    depend on what it was applied to before - in particular not on an earlier input of the same shape but another dtype,
+    or of another shape - and its documented public attributes may be re-assigned between calls."""
+    C.ensure_impl_path()
+    import numpy as np
+    from pydrobert.speech import post
+
+    r = ctx.rng
+    nprng = np.random.RandomState(ctx.seed + 123)
+    dts = [np.float64, np.float32, np.float16, np.int16, np.int32, np.int64, np.uint8]
+
+    def same(a, b):
+        return a.dtype == b.dtype and a.shape == b.shape and np.array_equal(a, b, equal_nan=(a.dtype.kind == "f"))
+
+    for rep in range(ctx.scale(60, 600)):
+        kind = "deltas" if rep % 3 else "stack"
+        nd = r.choice([1, 2, 2, 3]) if kind == "deltas" else r.choice([2, 2, 3])
+        shape = [r.randint(2, 6) for _ in range(nd)]
+        D, W = r.choice([1, 2, 3]), r.choice([1, 2])
+        nv = r.choice([1, 2, 3])
+        mode = r.choice(["edge", "constant", "reflect", "symmetric"])
+        axis = r.randrange(nd)
+        tax = r.choice([a for a in range(nd) if a != axis]) if nd > 1 else 0
+
+        def make():
+            if kind == "deltas":
+                return post.Deltas(D, context_window=W, pad_mode=mode, concatenate=r_conc)
+            return post.Stack(nv, time_axis=tax, pad_mode=r_pad)
+
+        r_conc = r.random() < 0.5
+        r_pad = r.choice([None, "edge", "constant"])
+        obj = make()
+        history = []
+        for call in range(r.randint(2, 5)):
+            dt = r.choice(dts)
+            shp = list(shape) if r.random() < 0.75 else [r.randint(2, 6) for _ in range(nd)]
+            x = (nprng.randn(*shp) * 20).astype(dt)
+            try:
+                got = obj.apply(x.copy(), axis=axis)
+                want = make().apply(x.copy(), axis=axis)
+            except (ValueError, RuntimeError):
+                continue  # e.g. reflect on too short an axis: both or neither - checked by the main oracle
+            ctx.count("reused:%s" % kind)
+            ctx.case(dict(kind="reused-object", cls=kind, call=call, dtype=str(np.dtype(dt)), shape=shp), nontrivial=call > 0)
+            if not same(got, want):
+                ctx.fail("%s object applied before to %s gives, on a %s input of shape %r, a result that differs from a fresh object's (%s %r vs %s %r)"
+                         % (type(obj).__name__, history[-3:], np.dtype(dt).name, shp, got.dtype, list(got.shape), want.dtype, list(want.shape)),
+                         dict(cls=kind, num_deltas=D, context_window=W, num_vectors=nv, pad_mode=(mode if kind == "deltas" else r_pad), axis=axis,
+                              time_axis=tax, history=history, x=x.tolist(), dtype=str(np.dtype(dt)), got=got.tolist(), fresh=want.tolist()), kind="impl")
+                return
+            history.append((str(np.dtype(dt)), shp))
 
 
 def general_pad_oracle(ctx):
